@@ -31,8 +31,10 @@ check("C16", "S", "exploration", "runtime contracts (icontract ensure) on the re
 check("C18", "S", "exploration", "icontract class invariant on the real VMNetwork + snapshot postconditions on VMNetconfig address arithmetic, ipaddress as reference",
       "A class invariant (every interface in exactly one netconfig, under its own address, inside the subnet, no duplicate address) is "
       "evaluated after construction and after every public method of the real VMNetwork on thousands of random topologies and "
-      "allocate/drain/reattach/translate sequences; postconditions check first-free allocation, exactly-|range| exhaustion, host-offset "
-      "preserving translation and the netmask/prefix round trip for all 33 prefix lengths.",
+      "allocate/drain/reattach/translate sequences and after moving whole subnets to another address with the same, no or another mask "
+      "(the invariant also compares netmask and mask_bit of every netconfig); postconditions check first-free allocation, exactly-|range| "
+      "exhaustion, host-offset preserving translation, the netmask/prefix round trip for all 33 prefix lengths on fresh objects and "
+      "set/read sequences through both views of the mask on one reused netconfig.",
       "Trusted: python's ipaddress module. Plain reattachment only; static addresses inside the DHCP range are counted as observations, "
       "not judged (input precondition).", "DESIGN.md §3 C18")
 
@@ -119,21 +121,30 @@ check("C03", "T", "exploration", "offline counting of executions per (worker-inv
       "DESIGN.md §3 C03")
 check("C04", "T", "exploration", "interval sweep over execution start/end sequence numbers per (class, scope); back-off length check",
       "Maximal overlap of executions per class and scope must stay within max_concurrent_tries (runs where an execution outlasts its timeout "
-      "budget are excluded from the overlap clause as the property states); every back-off sleep has the documented length.", _T_NOTE,
+      "budget are excluded from the overlap clause as the property states), the limit being the configured one (the traversal raises the "
+      "parameter itself when it gives up waiting); workloads include retries whose tries last most of their timeout. Every back-off sleep has "
+      "the documented length, and 'looks for other work' is checked as bounded progress: no more than 10 consecutive bounces of a compatible "
+      "worker while a test whose producers all finished in this run waits unstarted.", _T_NOTE,
       "DESIGN.md §3 C04")
 check("C05", "T", "exploration", "offline checker relating every state removal / unset request to the executions that use that copy of the state",
       "Every removal is related to the dependants that use that copy (tests of the owning worker, or tests told to fetch from that pool with an "
       "enabled scope): none may be running or still pending; states not marked for removal are never unset or removed; with pool_filter "
-      "reuse/block nothing is copied while backing out.", _T_NOTE, "DESIGN.md §3 C05")
+      "reuse/block nothing is copied while backing out. Workloads include one removable state with several dependants, several workers of one "
+      "remote swarm under a scope without 'cluster', and workers that join late; expansions of selected tests are recorded to tell the known "
+      "lazy-parsing findings from other premature removals.", _T_NOTE, "DESIGN.md §3 C05")
 check("C08", "T", "exploration", "oracle at every execution start: executing worker, connection parameters, restrictions and listed sources vs producers with a passing result",
       "At each test start the executing worker must be the one the test was parsed for, with its connection parameters and admitted by its "
       "restrictions (own evaluation of only/no lines); for every required state the listed non-shared sources must equal the workers with a "
-      "passing result of the producer before that instant (sequence-number exact), the shared pool must be listed and the access parameters "
-      "of every listed worker must be present and correct.", _T_NOTE, "DESIGN.md §3 C08")
+      "passing result of the producer before that instant (sequence-number exact) or in a replayed previous job, the shared pool must be "
+      "listed and the access parameters of every listed worker must be present and correct. A third of the cases replay a first run (through a "
+      "real results.json) with the same, a smaller, a larger or a disjoint worker set.", _T_NOTE, "DESIGN.md §3 C08")
 check("C10", "T", "exploration", "decision-table oracle evaluated at every execution start and at quiescence; uid / result-sequence / verdict comparison",
       "At each execution start the statuses known so far (completed + in-flight + replayed) must allow the try; at the end no try may be "
       "due; uids are unique and every node's recorded results equal what was reported for its executions; invalid retry settings must "
-      "raise; all_results_ok() is compared with the acceptable-result rule.", _T_NOTE, "DESIGN.md §3 C10")
+      "raise; all_results_ok() is compared with the acceptable-result rule. Replay cases run a second job on the results of the first "
+      "(other worker sets, replay defaults or explicit settings, own pools kept or wiped): a test with tries left and only rerun-worthy "
+      "previous results must run again, one whose previous results forbid it must not, unless a state it produces is missing from the "
+      "examining worker's own and the shared pool.", _T_NOTE, "DESIGN.md §3 C10")
 _P_NOTE = ("Trusted: the generator's drawn DAG as ground truth for generated suites and a hand-written parent table for the shipped suite; "
            "virttest's Params for resolving per-object parameters.")
 check("C06", "P", "exploration", "structural invariant checker over canonical descriptions of really parsed graphs (eager and after lazy expansion)",
@@ -142,7 +153,9 @@ check("C06", "P", "exploration", "structural invariant checker over canonical de
       _P_NOTE, "DESIGN.md §3 C06")
 check("C07", "P", "exploration", "comparison of parsed parents with the known (drawn or hand-declared) dependency DAG; clone-per-producer checks",
       "Every parsed node's parents per vm must equal the declared ones (none missing, spurious or duplicated per worker); dependants of "
-      "several producers must be cloned once per producer with branch-specific state names, and their own dependants consistently.", _P_NOTE,
+      "several producers must be cloned once per producer (a clone source without runnable clones counts as zero) with branch-specific state "
+      "names, and their own dependants consistently. Worker sets include restricted workers named first and three or four workers on deep "
+      "cloning suites.", _P_NOTE,
       "DESIGN.md §3 C07")
 check("C09", "P", "exploration", "per-worker canonical subgraph comparison, bridge/register identity check, lazy-vs-eager and parse-twice comparison",
       "Per-worker copies must have identical dependencies for every class they share; equivalent tests of all workers must be linked "
@@ -157,13 +170,14 @@ check("C15", "Tools", "exploration", "differential oracle: executions and unset 
       "For generated suites (state names equal setup test names) every ancestor-or-self pair (from_state, to_state) that lies in the remove-set "
       "graph, selections of 1-2 of up to 3 vms, remove_set values and 1-3 workers are sampled; executed setup tests must be exactly the path "
       "(each once), unset requests on every worker exactly the vm's states below the target, nothing of unselected vms; nonexistent "
-      "from/to states must raise.",
+      "from/to states and targets outside the remove-set graph must raise. A third of the cases use three workers on two selected vms.",
       "Trusted: the drawn setup tree; remove_set=all (which selects object creation tests as leaves) and to_state=install (hard-wired to the "
       "shipped 'customize' test) are outside the workload.", "DESIGN.md §3 C15")
 check("C20", "Tools", "exploration", "step-attributed execution counting through the real Manu.run with failure injection (failing test class / exception inside a step)",
       "Chains of 1-5 steps over 17 built-in steps (incl. repeated steps), vm selections, per-vm variant restrictions and worker sets with "
       "restricted workers: per step, exactly one execution per selected vm and admitting worker (one per worker covering all vms for vm "
       "management steps), carrying the step's action and the user's parameter, none for unselected vms, steps in order and all executed "
-      "even after a failing one, return code 1 iff some step failed.",
+      "even after a failing one (failing test class, or one of seven exception types raised inside a step), return code 1 iff some step "
+      "failed; a step that keeps executing until the job timeout or the iteration budget did not finish.",
       "Trusted: the harness's own evaluation of only/no restrictions for worker compatibility; run/list/unittest steps need a real avocado job "
       "and are not driven.", "DESIGN.md §3 C20")
